@@ -38,6 +38,7 @@ fn outcome(case: &PCase, run: &PRun, violation: Option<Violation>, nontrivial: b
     ("several_inputs_terminated", (run.inputs_terminated_total >= 2) as u64),
     ("task_reorder(>=2 ready, any-ready policy)", if case.fifo { 0 } else { run.multi_ready }),
     ("clock_jump_over_2_deadlines", run.clock_jumps),
+    ("subscribed_after_an_input_had_terminated", run.late_subscribe_after_input_terminal as u64),
   ];
   faults.extend(extra_faults);
   Outcome {
@@ -68,7 +69,10 @@ fn gen_case(rng: &mut Rng, tier: Tier, sched_weight: usize, cut: (usize, usize),
   };
   let uses = root.uses_scheduler();
   let acts = gen_script(rng, n_hot, uses, &ScriptCfg { len: (3, 28), cut, post_terminal: true });
-  PCase { threads_flavour: rng.chance(1, 2), fifo: rng.chance(1, 2), n_hot, root, acts }
+  {
+    let sub_at = if rng.chance(1, 4) { rng.below(acts.len().max(1)) } else { 0 };
+    PCase { threads_flavour: rng.chance(1, 2), fifo: rng.chance(1, 2), n_hot, root, acts, sub_at }
+  }
 }
 
 // ------------------------------------------------------------------------ C01
